@@ -177,3 +177,104 @@ Proof.
   destruct (trace_iteration_exact l w []) as [w' [H1 H2]].
   exists w'. rewrite H1. cbn [rev app]. split; [reflexivity|exact H2].
 Qed.
+
+(* ---------- gas store over a prefix store: same charges, keys stripped ---------- *)
+Definition pv (l : list (bytes * bytes)) : bool := match l with [] => false | _ => true end.
+Definition stripped pfx (l : list (bytes * bytes)) := map (fun p => (strip pfx (fst p), snd p)) l.
+Definition all_prefixed pfx (l : list (bytes * bytes)) := forall p, In p l -> has_prefix pfx (fst p) = true.
+
+Lemma pcollect_step pfx f k v r w acc w1 : all_prefixed pfx ((k, v) :: r) ->
+  seek_gas (IList ((k, v) :: r)) w = (Ok tt, w1) ->
+  it_collect (S f) (IGas (IPrefix pfx true (IList ((k, v) :: r)))) w acc =
+  it_collect f (IGas (IPrefix pfx (pv r) (IList r))) w1 ((strip pfx k, v) :: acc).
+Proof.
+  intros Hp H.
+  assert (H' : seek_gas (IPrefix pfx true (IList ((k, v) :: r))) w = (Ok tt, w1)) by exact H.
+  cbn [it_collect it_valid it_key it_value it_next bind andb].
+  cbn [it_valid andb] in H'. rewrite H'.
+  destruct r as [|[k2 v2] r2].
+  - cbn [it_valid it_next pv]. reflexivity.
+  - cbn [it_valid it_next it_key pv].
+    assert (Hk : has_prefix pfx k2 = true) by (apply (Hp (k2, v2)); right; left; reflexivity).
+    rewrite Hk. reflexivity.
+Qed.
+
+Theorem gas_prefix_iteration_exact pfx l : forall w acc, all_prefixed pfx l ->
+  within w (w_consumed w + iter_cost (w_cfg w) l) ->
+  it_collect (S (length l)) (IGas (IPrefix pfx (pv l) (IList l))) w acc =
+  (Ok (rev acc ++ stripped pfx l), set_consumed w (w_consumed w + iter_cost (w_cfg w) l)).
+Proof.
+  induction l as [|[k v] r IH]; intros w acc Hp Hw.
+  - cbn. rewrite app_nil_r, N.add_0_r. destruct w; reflexivity.
+  - cbn [length pv].
+    assert (Hs : within w (w_consumed w + step_cost (w_cfg w) (k, v))).
+    { eapply within_le; [|exact Hw]. cbn [iter_cost]. lia. }
+    rewrite (pcollect_step pfx _ k v r w acc _ Hp (seek_gas_list k v r w Hs)).
+    set (w1 := set_consumed w (w_consumed w + step_cost (w_cfg w) (k, v))).
+    rewrite (IH w1 ((strip pfx k, v) :: acc)).
+    + subst w1. cbn [set_consumed w_consumed w_cfg w_limit w_trace rev iter_cost stripped map fst snd].
+      rewrite <- app_assoc. cbn [app]. f_equal. unfold set_consumed; cbn. f_equal. lia.
+    + intros p Hin. apply Hp. right. exact Hin.
+    + subst w1. apply within_set. cbn [set_consumed w_consumed w_cfg].
+      eapply within_le; [|exact Hw]. cbn [iter_cost]. lia.
+Qed.
+
+From PM Require Import Store.MergeProofs Store.KVProofs Store.DirtyProofs Store.WrapProofs.
+Definition prefixed_items pfx (m : list (bytes * bytes)) asc := dir asc (filter (fun p => has_prefix pfx (fst p)) m).
+Lemma prefixed_items_all pfx m asc : all_prefixed pfx (prefixed_items pfx m asc).
+Proof.
+  intros p Hp. unfold prefixed_items, dir in Hp. destruct asc; [|apply in_rev in Hp]; apply filter_In in Hp; tauto.
+Qed.
+Lemma prefix_iter_shape pfx m asc w : pfx <> [] -> wf_bytes pfx -> (forall k v, In (k, v) m -> wf_bytes k) ->
+  let l := prefixed_items pfx m asc in
+  s_iter (Prefix pfx (Base m)) [] None asc w = (Ok (IPrefix pfx (pv l) (IList l)), Prefix pfx (Base m), w).
+Proof.
+  intros Hne Wp Wm l. simpl s_iter. rewrite app_nil_r. unfold kv_range.
+  assert (F : filter (fun p : bytes * bytes => in_domain (fst p) pfx (prefix_end_bytes pfx)) m = filter (fun p => has_prefix pfx (fst p)) m).
+  { apply filter_ext_in. intros [k v] Hin. apply in_domain_is_prefix; auto. eapply Wm; eauto. }
+  rewrite F. fold (prefixed_items pfx m asc). fold l.
+  pose proof (prefixed_items_all pfx m asc) as Hl. fold l in Hl.
+  destruct l as [|[k x] r] eqn:El.
+  - reflexivity.
+  - cbn [it_valid it_key pv]. pose proof (Hl (k, x) (or_introl eq_refl)) as Hk. simpl in Hk. rewrite Hk. reflexivity.
+Qed.
+
+(* the whole operation on a gas store over a prefix store over a map: the complete loop returns exactly the parent's
+   items carrying the prefix, stripped, in iteration order, and charges exactly what the unprefixed items cost
+   (values only: key bytes are never charged), the first one once more at creation *)
+Theorem gas_prefix_store_iteration_exact pfx m asc w :
+  pfx <> [] -> wf_bytes pfx -> (forall k v, In (k, v) m -> wf_bytes k) ->
+  let l := prefixed_items pfx m asc in
+  within w (w_consumed w + head_cost (w_cfg w) l + iter_cost (w_cfg w) l) ->
+  s_iter_all (Gas (Prefix pfx (Base m))) [] None asc w =
+  (Ok (stripped pfx l), Gas (Prefix pfx (Base m)),
+   set_consumed w (w_consumed w + head_cost (w_cfg w) l + iter_cost (w_cfg w) l)).
+Proof.
+  intros Hne Wp Wm l Hw. unfold s_iter_all.
+  change (s_iter (Gas (Prefix pfx (Base m))) [] None asc w) with
+    (match s_iter (Prefix pfx (Base m)) [] None asc w with
+     | (Ok ip, p', w') =>
+       if it_valid ip then
+         match seek_gas ip w' with
+         | (Ok _, w'') => (Ok (IGas ip), Gas p', w'')
+         | (Panic x, w'') => (Panic x, Gas p', w'')
+         end
+       else (Ok (IGas ip), Gas p', w')
+     | (Panic x, p', w') => (Panic x, Gas p', w')
+     end).
+  rewrite (prefix_iter_shape pfx m asc w Hne Wp Wm). fold l.
+  pose proof (prefixed_items_all pfx m asc) as Hl. fold l in Hl.
+  destruct l as [|[k v] r] eqn:El.
+  - cbn. rewrite !N.add_0_r. destruct w; reflexivity.
+  - cbn [pv it_valid andb]. cbn [head_cost] in *.
+    assert (Hs : within w (w_consumed w + step_cost (w_cfg w) (k, v))).
+    { eapply within_le; [|exact Hw]. lia. }
+    change (seek_gas (IPrefix pfx true (IList ((k, v) :: r))) w) with (seek_gas (IList ((k, v) :: r)) w).
+    rewrite (seek_gas_list k v r w Hs).
+    set (w1 := set_consumed w (w_consumed w + step_cost (w_cfg w) (k, v))).
+    change (it_size (IGas (IPrefix pfx true (IList ((k, v) :: r))))) with (length ((k, v) :: r)).
+    change true with (pv ((k, v) :: r)) at 1.
+    rewrite (gas_prefix_iteration_exact pfx ((k, v) :: r) w1 [] Hl).
+    + subst w1. cbn [set_consumed w_consumed w_cfg rev app]. reflexivity.
+    + subst w1. apply within_set. cbn [set_consumed w_consumed w_cfg]. exact Hw.
+Qed.
